@@ -128,14 +128,18 @@ func ExplodeXML(raw []byte, cfg ExplodeConfig) (Result, error) {
 				Fields:     frame.Fields,
 			}
 			result.Segments = append(result.Segments, seg)
-			switch {
-			case segmentSets.items[seg.Name]:
+			// A segment name may be configured for more than one route; every
+			// routed list receives the segments whose names it lists.
+			if segmentSets.items[seg.Name] {
 				result.Items = append(result.Items, seg)
-			case segmentSets.partners[seg.Name]:
+			}
+			if segmentSets.partners[seg.Name] {
 				result.Partners = append(result.Partners, seg)
-			case segmentSets.statuses[seg.Name]:
+			}
+			if segmentSets.statuses[seg.Name] {
 				result.Statuses = append(result.Statuses, seg)
-			case segmentSets.dates[seg.Name]:
+			}
+			if segmentSets.dates[seg.Name] {
 				result.Dates = append(result.Dates, seg)
 			}
 		}
